@@ -113,6 +113,9 @@ thread_local! {
 }
 
 pub fn real(sym: &str) -> String {
+    if sym == "%empty" {
+        return String::new(); // the account whose address is the empty string (`Addr::unchecked("")`)
+    }
     SYMS.with(|s| s.borrow().get(sym).cloned()).unwrap_or_else(|| sym.to_string())
 }
 
